@@ -47,6 +47,7 @@ def run_c12(pid, tier):
     })
     v.assumptions += ['TLC/SANY, CommunityModules Json; the table driver harness/drv_kernel.py reports the getters faithfully']
     v.coverage['extension_general_calibration_kernel'] = extension_general(tier)
+    v.coverage['extension_inductive_tiling'] = extension_inductive()
     v.finish()
 
 
@@ -68,6 +69,32 @@ def extension_general(tier):
     return {'status': 'advisory: no listed property speaks about this class', 'mc_states': mc.distinct, 'rows': len(rows),
             'rows_agreeing': len(rows) - len(res['fails']),
             'deviations': {c: {'count': len(xs), 'first': xs[0]} for c, xs in per.items()}}
+
+
+def extension_inductive():
+    """Beyond the bounded model check (advisory clause E12.inductive, never a verdict): spec/KernelInductive.tla builds the cycle kernel
+    after kernel and repetition after repetition; Apalache discharges an inductive invariant, so contiguity / disjointness / categories /
+    translates hold for every round count, every number of blocks and every number of repetitions, not only up to MaxRound."""
+    import shutil
+    import subprocess
+    exe = shutil.which('apalache-mc')
+    if exe is None:
+        return {'status': 'advisory: not run (apalache-mc not on PATH)'}
+    out = os.path.join(scratch(), 'apalache')
+    res = {}
+    for name, args in (('init_implies_inv', ['--init=Init', '--inv=IndInv', '--length=0']),
+                       ('inv_is_inductive', ['--init=IndInit', '--inv=IndInv', '--length=1']),
+                       ('reachable_prefix_len6', ['--init=Init', '--inv=IndInv', '--length=6'])):
+        try:
+            r = subprocess.run([exe, 'check'] + args + ['--out-dir=' + out, 'KernelInductive.tla'], cwd=common.SPEC,
+                               capture_output=True, text=True, timeout=300)
+            res[name] = 'NoError' if (r.returncode == 0 and 'The outcome is: NoError' in r.stdout) else 'FAILED (exit %d)' % r.returncode
+        except Exception as e:                                                              # advisory only: never a machinery failure of C12
+            res[name] = 'not run: %r' % (e,)
+    ok = all(x == 'NoError' for x in res.values())
+    return {'status': 'advisory: unbounded design-level argument for C12 (E12.inductive)', 'tool': 'apalache-mc 0.58 (SMT, integers unbounded)',
+            'module': 'KernelInductive', 'invariant': 'IndInv = TypeOK /\\ Tiling /\\ Categories /\\ Calibration /\\ Translates', 'steps': res, 'proved': ok,
+            'scope': 'every round count in Nat, every number of blocks, both heralded settings, calibration on/off, every number of repetitions'}
 
 
 def run_c13(pid, tier):
